@@ -601,7 +601,7 @@ def case_infinite(ctx, i):
             val = st * local_product_expval(term)
             e_ref = e_ref + val + (np.conj(val) if plus_hc else 0)
         e_mpo = e_mpo * L  # documented: for infinite MPS the expectation value is the density per site
-        if abs(e_mpo - e_ref) > 1e-9 * max(1.0, abs(e_ref)):
+        if not (abs(e_mpo - e_ref) <= 1e-9 * max(1.0, abs(e_ref))):
             ctx.violation('infinite:MPO-energy-density-differs-from-recorded-terms', 'H_MPO.expectation_value = %r, dense window sum = %r' % (e_mpo, e_ref), case)
             return
         # window of the infinite MPO (boundary vectors IdL / IdR): exactly the terms that lie completely inside the window,
@@ -644,7 +644,7 @@ def case_infinite(ctx, i):
                 if Hseg.explicit_plus_hc:
                     Hs = Hs + Hs.conj().T
                 ctx.count('infinite.segment_checked')
-                if np.linalg.norm(Hs - ref_w) > 1e-9 * max(1.0, np.linalg.norm(ref_w)):
+                if not (np.linalg.norm(Hs - ref_w) <= 1e-9 * max(1.0, np.linalg.norm(ref_w))):
                     ctx.violation('MPO.extract_segment:differs-from-recorded-terms%s' % (':explicit_plus_hc' if explicit else ''),
                                   '|segment - reference| = %g (|ref| = %g), flag on the segment: %r' %
                                   (np.linalg.norm(Hs - ref_w), np.linalg.norm(ref_w), Hseg.explicit_plus_hc), case)
@@ -655,7 +655,7 @@ def case_infinite(ctx, i):
                     raise
                 ctx.violation('MPO.extract_segment:raises-%s' % type(e).__name__, tb[-500:], case)
                 return
-            if np.linalg.norm(Hw - ref_w) > 1e-9 * max(1.0, np.linalg.norm(ref_w)):
+            if not (np.linalg.norm(Hw - ref_w) <= 1e-9 * max(1.0, np.linalg.norm(ref_w))):
                 ctx.violation('infinite:MPO-window-differs-from-recorded-terms', '|window(H_MPO) - sum of the translates of the recorded terms '
                               'inside %d sites| = %g (|ref| = %g, %d terms inside)' % (Wn, np.linalg.norm(Hw - ref_w), np.linalg.norm(ref_w), n_in), case)
                 return
@@ -724,12 +724,12 @@ def case_predefined(ctx, i):
             ctx.violation('predefined:%s:not-hermitian' % c.__name__, '|H - H^dagger| = %g' % np.linalg.norm(Hd - Hd.conj().T), case)
             return
         Hn = np.asarray(ED.get_numpy_Hamiltonian(m, undo_sort_charge=False))
-        if Hn.shape != Hd.shape or np.linalg.norm(Hn - Hd) > 1e-10 * max(1.0, np.linalg.norm(Hd)):
+        if Hn.shape != Hd.shape or not (np.linalg.norm(Hn - Hd) <= 1e-10 * max(1.0, np.linalg.norm(Hd))):
             ctx.violation('predefined:%s:numpy-hamiltonian-differs-from-MPO' % c.__name__, '', case)
             return
         if isinstance(m, NearestNeighborModel) and m.H_bond is not None and not m.H_MPO.explicit_plus_hc:
             H3 = m.calc_H_MPO_from_bond()
-            if np.linalg.norm(dense.mpo_to_matrix(H3) - Hd) > 1e-10 * max(1.0, np.linalg.norm(Hd)):
+            if not (np.linalg.norm(dense.mpo_to_matrix(H3) - Hd) <= 1e-10 * max(1.0, np.linalg.norm(Hd))):
                 ctx.violation('predefined:%s:bond-form-differs-from-MPO' % c.__name__, '', case)
                 return
     except Exception as e:
